@@ -60,6 +60,7 @@ class DocGen:
         self.rng = rng
         self.uid = 0
         self.features = set()
+        self.max_depth = 3
 
     def scalar(self):
         rng = self.rng
@@ -135,7 +136,7 @@ class DocGen:
         for key in keys:
             branches = []
             for _ in range(rng.randint(1, 2)):
-                if rng.random() < 0.75 and depth < 3:
+                if rng.random() < 0.75 and depth < self.max_depth:
                     branches.append(
                         self.obj(depth + 1, None if mode == "mixed" else mode)
                     )
@@ -153,7 +154,7 @@ class DocGen:
 
     def node(self, depth):
         rng = self.rng
-        if depth >= 3:
+        if depth >= self.max_depth:
             return self.scalar()
         roll = rng.random()
         if roll < 0.3:
@@ -799,7 +800,27 @@ def _check(tier, seed, n_docs, configs, orders_reachable, n_cli, n_cli_conf, wor
         "known_findings_hit": known_hit,
         "replays": replays,
     }
-    write_evidence(PROP, tier, seed, coverage, wall, len(replays), ASSUMPTIONS)
+    # ---- concurrent mode (engine T): threads of one process -----------------
+    from sim import driver
+
+    common.import_statham()
+    t_code, t_cov, t_reported = driver.check_part(PROP, "C09T", tier)
+    if t_code == 2:
+        return 2
+    exit_code = max(exit_code, t_code)
+    coverage["parts"] = {"C09T": t_cov}
+    coverage["evaluations"] += t_cov["evaluations"]
+    coverage["distinct_nontrivial"] += t_cov["distinct_nontrivial"]
+    coverage["rule"] = "[P] " + RULE + " || [C09T] " + t_cov["rule"]
+    coverage["samples"] = coverage["samples"] + t_cov["samples"][:1]
+    coverage["logical_steps"] += t_cov["logical_steps"]
+    wall = time.time() - t0
+    from sim import c09t
+
+    write_evidence(
+        PROP, tier, seed, coverage, wall, len(replays) + t_reported,
+        ASSUMPTIONS + c09t.ASSUMPTIONS,
+    )
     print(
         f"C09 {tier}: documents={n_docs} configurations={len(configs)} nontrivial_distinct="
         f"{coverage['distinct_nontrivial']} disagreeing={len(bad)} keyword_orders={len(orders)} "
